@@ -60,6 +60,10 @@ def gen_ingress_objs(r, W, stress_target=False):
                     tp = cp['port']
                 else:
                     tp = cp['name']
+            # a target port named after a container port that is NOT a TCP one, next to a TCP port with the same number: not reachable
+            odd = [p for p in w['ports'] if p['proto'] != 'TCP' and p['name'] and any(q['proto'] == 'TCP' and q['port'] == p['port'] for q in w['ports'])]
+            if odd and r.random() < 0.5:
+                tp = r.choice(odd)['name']
             ports.append({'name': nm, 'port': pnum, 'targetPort': tp})
         name = 'svc%d' % (i if r.random() < 0.9 else 0)
         s = {'kind': 'Service', 'ns': ns, 'name': name, 'selector': sel, 'ports': ports}
@@ -146,6 +150,10 @@ def gen_case(r, big=False):
                     p['proto'] = 'TCP'
             if not w['ports']:
                 w['ports'].append({'port': r.choice(gen.PORTS), 'proto': 'TCP', 'name': r.choice(gen.NAMES + [''])})
+    if r.random() < 0.2:
+        # one port number declared twice, as UDP under one name and as TCP under another
+        w = r.choice(W['workloads'])
+        w['ports'] = [{'port': 53, 'proto': 'UDP', 'name': 'dns'}, {'port': 53, 'proto': 'TCP', 'name': 'metrics'}] + [p for p in w['ports'] if p['name'] not in ('dns', 'metrics')][:1]
     W['ingress_objs'] = gen_ingress_objs(r, W, stress_target=(r.random() < 0.15))
     x = r.random()
     if x < 0.7:
